@@ -82,7 +82,8 @@ def brief(rec, limit=400):
 
 
 def generic_codec_check(pid, tier, seed, t0, runs, gate_pid=None, nontrivial=None, rule="", known_match=None,
-                        assumptions=None, binary="codec", family="codec", normalise=None, extra_cov=None):
+                        assumptions=None, binary="codec", family="codec", normalise=None, extra_cov=None,
+                        extra_runs=None):
     """runs: list of (mode, n_quick, n_thorough, extra_args). Oracles keyed by pid in each record."""
     v = Verdict(pid)
     gate = common.proof_gate(gate_pid or pid)
@@ -91,6 +92,10 @@ def generic_codec_check(pid, tier, seed, t0, runs, gate_pid=None, nontrivial=Non
         n = nq if tier == "quick" else nt
         recs += run_harness(mode, seed, n, extra, binary=binary)
     mism = compare(recs, family=family, normalise=normalise)
+    for mode, nq, nt, extra, b2, f2 in (extra_runs or []):
+        recs2 = run_harness(mode, seed, nq if tier == "quick" else nt, extra, binary=b2)
+        mism += compare(recs2, family=f2)
+        recs += recs2
     oracle_fail = []
     tags = collections.Counter()
     distinct = set()
@@ -204,7 +209,8 @@ def check_C18(pid, tier, seed, t0):
     return generic_codec_check(
         pid, tier, seed, t0,
         runs=[("lookup", 300, 4000, None)],
-        nontrivial=lambda r: r["mode"] == "valbytag" or r["impl"].startswith("OK"),
+        extra_runs=[("stream", 120, 2000, None, "stream", "frame")],
+        nontrivial=lambda r: r["mode"] == "valbytag" or r["impl"].startswith("OK") or r["mode"].startswith("frame"),
         rule="messages whose values contain 't=' for template tags t (plain, count, first-of-group, MsgType, MsgSeqNum, "
              "CheckSum) and whose templates contain tags with a template tag as proper decimal suffix/prefix; every tag "
              "and its look-alikes looked up with ValueByTag against an independent boundary-anchored tokenizer; the "
